@@ -158,8 +158,14 @@ def r3a_clean_before_append(ctx):
             for p, edges in false_edges.items():
                 if clear_bbs and not _reach_avoiding(E, 0, abb, removed_nodes=clear_bbs, removed_edges=edges):
                     cond[m] = p
-                    r.ok(sample={"map": m, "append_site": ctx.bin.span_str(E.blocks[abb]["t"][1]["span"]),
-                                 "cleared": "unless parameter `%s` is false" % E.local_name(p)})
+                    rk = "R3a-cond|%s" % m
+                    if rk in REVIEWED:
+                        r.review(rk, REVIEWED[rk])
+                    else:
+                        r.violate("R3a|%s|%s|conditional" % (E.id, m),
+                                  "map `%s` is cleared only when parameter `%s` is true: the non-cleaning analysis appends to "
+                                  "it a second time when the file was analysed before (document opened before the scan reaches "
+                                  "it, or a second scan)" % (m, E.local_name(p)))
                     done = True
                     break
             if not done:
